@@ -9,6 +9,8 @@ TRUST = ("trusted: rustc, std, lock_api, once_cell, hashbrown, the vendored Dash
 
 CLAIMS = {
     "C01": ("seqx+macx", "explicit-state BFS over the three core engines with two versions per key (last store wins, value encodes key) plus bounded-exhaustive history enumeration over 372 generated #[cache]/#[cache_async] functions (full flavour x policy x limit x ttl x memory product) whose values encode function, key and version; every returned value compared with the undecorated twin", "§7 C01"),
+    "C02": ("shapex", "bounded-exhaustive input enumeration: 72 signature shapes (1-5 arguments of integers, floats, bool, char, String, &str, Option, Vec, slices, tuples, nested containers, Debug-derived struct/enum/tuple struct; free functions and &self / self / &mut self methods; sync to_cache_key and async format! generators), "
+                      "every argument tuple of the cartesian product of small adversarial domains called twice on an unlimited cache: executions = tuples = listed keys and every call returns its own tuple", "§7 C02"),
     "C03": ("macx+thrx", "every call sequence (depth 5/6) over 3 keys x 2 functions sharing key strings for all unlimited functions: executions = distinct tuples; plus every schedule (preemption bound 2/3, both rwlock policies) of 2-3 concurrent callers: nothing runs after a storing call returned", "§7 C03"),
     "C04": ("seqx+macx", "explicit-state BFS over the real cache engines (all three flavours x six policies x limits x ttl x memory), every random victim enumerated; "
                     "monitor: size <= limit after every operation and exactly the required number of removals per store; the same monitor on the key listing of generated functions", "§7 C04"),
@@ -23,10 +25,16 @@ CLAIMS = {
     "C11": ("macx", "history enumeration over 24 invalidate_on functions with versioned bodies and every verdict script: stale entries never served, refreshed value replaces the stale one and is served next", "§7 C11"),
     "C12": ("macx", "history enumeration over groups covering all 128 metadata assignments (tags/events/dependencies subsets of {x,y}, sync and async): every by_tag/by_event/by_dependency/invalidate_cache request incl. undeclared names; count and emptied caches compared with the metadata", "§7 C12"),
     "C13": ("macx", "history enumeration with invalidate_with / invalidate_all_with for key subsets: exactly the matching keys go, bystanders untouched, and the C04-type monitors keep running after the invalidation", "§7 C13"),
+    "C14": ("thrx", "every interleaving (operation-boundary granularity, no effective preemption bound) of 2-4 real OS threads calling thread-scope functions of every policy / limit, compared with each thread's program run alone on a fresh thread; "
+                    "any dependence of a schedule on earlier executions (fresh threads each time) is reported as state outliving its thread; plus global/async drivers: what one thread stored every other thread is served", "§7 C14"),
     "C15": ("seqx+macx+thrx", "stats compared with the harness's own lookup/hit counts after every operation (L0 BFS, L1 histories incl. named caches and reset), and at quiescence for every schedule of concurrent callers with the counters' atomics as scheduling points", "§7 C15"),
     "C16": ("seqx+macx", "explicit-state BFS over the full configuration product with catch_unwind around every operation; L1 histories over every generated function", "§7 C16"),
     "C17": ("thrx", "every schedule (preemption bound 2/3, both rwlock fairness policies) of 920+ two/three-thread drivers mixing cached calls (hit/miss/overflow/expired/oversized) with every invalidation and statistics function; oracle: the scheduler's deadlock detection", "§7 C17"),
     "C18": ("thrx", "same drivers plus L0 drivers on harness-owned storage; oracle: values inside threads, bounds and store-vs-queue agreement at quiescence, then a sequential probe (fresh stores flush everything, entries expire, everything can be invalidated)", "§7 C18"),
+    "C19": ("cfgx", "program enumeration: 210 decorated functions (every attribute value in isolation and in pairs, three flavours, 0-4 arguments, methods, Result) driven through every history of depth 4 (6 for frequency_weight) and compared call for call with the core cache "
+                    "constructed directly with the intended numbers; plus 63 invalid attribute lists that must each carry a compile error in their own span (7 valid controls must compile)", "§7 C19"),
+    "C20": ("macx", "explicit enumeration of poll boundaries: bodies with 1-3 harness-controlled await points; every sequence (depth 5-7) of start / poll / open-gate / drop of one or two pending calls interleaved with completed calls and invalidations; "
+                    "oracle: nothing blocks (a lock held across the suspension is a reported blocked acquisition), a suspended or dropped call leaves no entry and changes no statistics beyond its lookup, a resumed call stores normally", "§7 C20"),
 }
 
 checks = []
@@ -63,12 +71,16 @@ manifest = {
          "kind_free_text": "explicit-state breadth-first search over the real core caches (harness-owned storage), virtual clock, enumerated fastrand"},
         {"name": "macx", "path": "harness/engine/src/macx.rs", "serves_properties": sorted(k for k, v in CLAIMS.items() if "macx" in v[0]),
          "kind_free_text": "bounded-exhaustive history enumeration over a generated corpus of #[cache]/#[cache_async] functions, environment answers enumerated"},
+        {"name": "shapex", "path": "harness/engine/src/shapes.rs", "serves_properties": ["C01", "C02"],
+         "kind_free_text": "bounded-exhaustive enumeration of argument tuples over generated signature shapes"},
+        {"name": "cfgx", "path": "harness/engine/src/cfgx.rs", "serves_properties": ["C19"],
+         "kind_free_text": "program enumeration: generated attribute corpus vs directly constructed core caches (differential, every short history), plus a compile-fail corpus checked with cargo check JSON diagnostics"},
         {"name": "thrx", "path": "harness/engine/src/thrx.rs", "serves_properties": sorted(k for k, v in CLAIMS.items() if "thrx" in v[0]),
          "kind_free_text": "stateless exploration of real OS threads under a controlled scheduler (vsched) with iterative preemption bounding; instrumented parking_lot/DashMap locks"},
     ],
     "checks": checks,
     "notes": "see DESIGN.md; known_findings.txt lists repaired defects (fixed:) and recorded findings (known:)",
-    "not_applicable": [{"property_id": p["id"], "reason": "check not built yet (work in progress, see DESIGN.md §13 build order)"} for p in props if p["id"] not in CLAIMS],
+    "not_applicable": [{"property_id": p["id"], "reason": "check not built yet"} for p in props if p["id"] not in CLAIMS],
 }
 json.dump(manifest, open(os.path.join(ROOT, "MANIFEST.json"), "w"), indent=1)
 print("claimed:", [c["property_id"] for c in checks])
